@@ -56,7 +56,7 @@ theorem scanEq_eq (v : Bytes) : ∀ (us : List Bytes) (j : Nat),
   | cons u us ih =>
     intro j
     by_cases h : v = u
-    · subst h; simp [scanEq, List.idxOf_cons]
+    · subst h; simp [scanEq]
     · have h' : (u == v) = false := by simpa using fun e => h e.symm
       simp only [scanEq, beq_iff_eq, h, if_false, ih, List.mem_cons, false_or, List.idxOf_cons, h',
         cond_false]
@@ -158,7 +158,7 @@ theorem kinv_new (ri rv rc : Bool) (p : List Bytes) (v : Bytes) (s : UState) (hI
       apply List.map_congr_left
       intro u hu
       have : u ≠ v := fun e => hv (e ▸ hu)
-      simp [List.count_append, List.count_cons, this.symm]
+      simp [List.count_append, this.symm]
     rw [this]
     cases rc <;> simp [List.count_append, List.count_eq_zero.mpr hvp]
 
